@@ -10,6 +10,7 @@
 //	other than len/cap and method calls without arguments (pure accessors)
 //
 // ifelse:   if c {A} else {B}  =>  if !c {B} else {A}   (no init statement, else is a block)
+// wrap:     func F(args) R { body }  =>  func F(args) R { return FImpl__(args) } + func FImpl__(args) R { body }
 // demorgan: if a && b {…}  =>  if !(!a || !b) {…}  (and the dual), condition of an if only
 package main
 
@@ -29,6 +30,7 @@ import (
 var mode = flag.String("mode", "swap", "swap|ifelse|demorgan")
 var dir = flag.String("dir", "", "scratch copy of the repository")
 var pkgs = flag.String("pkgs", "fw,std,dv", "top-level directories to rewrite")
+var only = flag.String("only", "", "wrap mode: comma-separated function names to split (default: every function)")
 
 func mirror(op token.Token) (token.Token, bool) {
 	switch op {
@@ -161,6 +163,62 @@ func main() {
 				}
 				return true
 			})
+			if *mode == "wrap" {
+				var decls []ast.Decl
+				for _, d := range f.Decls {
+					decls = append(decls, d)
+					fd, ok := d.(*ast.FuncDecl)
+					if !ok || fd.Body == nil || fd.Name.Name == "init" || fd.Name.Name == "main" || fd.Name.Name == "_" || (fd.Type.TypeParams != nil && len(fd.Type.TypeParams.List) > 0) {
+						continue
+					}
+					if *only != "" && !strings.Contains(","+*only+",", ","+fd.Name.Name+",") {
+						continue
+					}
+					// name every parameter (and the receiver)
+					k := 0
+					var args []ast.Expr
+					variadic := false
+					if fd.Type.Params != nil {
+						for _, fl := range fd.Type.Params.List {
+							if len(fl.Names) == 0 {
+								fl.Names = []*ast.Ident{ast.NewIdent(fmt.Sprintf("p%d__", k))}
+								k++
+							}
+							for _, nm := range fl.Names {
+								if nm.Name == "_" {
+									nm.Name = fmt.Sprintf("p%d__", k)
+									k++
+								}
+								args = append(args, ast.NewIdent(nm.Name))
+							}
+							if _, isEl := fl.Type.(*ast.Ellipsis); isEl {
+								variadic = true
+							}
+						}
+					}
+					var fun ast.Expr = ast.NewIdent(fd.Name.Name + "Impl__")
+					if fd.Recv != nil && len(fd.Recv.List) == 1 {
+						r := fd.Recv.List[0]
+						if len(r.Names) == 0 || r.Names[0].Name == "_" {
+							r.Names = []*ast.Ident{ast.NewIdent("recv__")}
+						}
+						fun = &ast.SelectorExpr{X: ast.NewIdent(r.Names[0].Name), Sel: ast.NewIdent(fd.Name.Name + "Impl__")}
+					}
+					call := &ast.CallExpr{Fun: fun, Args: args}
+					if variadic {
+						call.Ellipsis = 1
+					}
+					var st ast.Stmt = &ast.ExprStmt{X: call}
+					if fd.Type.Results != nil && len(fd.Type.Results.List) > 0 {
+						st = &ast.ReturnStmt{Results: []ast.Expr{call}}
+					}
+					wrapper := &ast.FuncDecl{Recv: fd.Recv, Name: ast.NewIdent(fd.Name.Name), Type: fd.Type, Body: &ast.BlockStmt{List: []ast.Stmt{st}}}
+					fd.Name = ast.NewIdent(fd.Name.Name + "Impl__")
+					decls = append(decls, wrapper)
+					changed++
+				}
+				f.Decls = decls
+			}
 			if changed == 0 {
 				return nil
 			}
